@@ -32,10 +32,13 @@ import (
 
 	"verifharness/internal/hx"
 
+	"github.com/els0r/goProbe/v4/pkg/goDB"
+	"github.com/els0r/goProbe/v4/pkg/goDB/conditions/node"
 	"github.com/els0r/goProbe/v4/pkg/goDB/engine"
 	"github.com/els0r/goProbe/v4/pkg/query"
 	"github.com/els0r/goProbe/v4/pkg/results"
 	"github.com/els0r/goProbe/v4/pkg/types"
+	"github.com/els0r/goProbe/v4/pkg/types/hashmap"
 	"github.com/els0r/telemetry/logging"
 	slimcap "github.com/fako1024/slimcap/capture"
 )
@@ -450,6 +453,37 @@ func (q *qry) realKey(r results.Row) string {
 	return keyString(r.Labels.Iface, sip, dip, dport, proto)
 }
 
+// preflight performs the in-memory part of a live query the way engine.QueryRunner.runLiveQuery
+// does (Manager.GetFlowMaps with goDB.QueryFilter of the prepared query), but on the harness'
+// goroutine: the engine runs it on a goroutine of its own, where a panic of the code under test
+// would take the whole harness down instead of being attributed to this step.
+func (w *world) preflight(q *qry) (panicked string) {
+	ifs := append([]string{}, q.Ifs...)
+	sort.Strings(ifs)
+	stmt, err := w.args(q.attrString(), strings.Join(ifs, ","), render(q.Cond), true).Prepare(io.Discard)
+	if err != nil {
+		return "" // the engine reports it
+	}
+	attrs, _, err := types.ParseQueryType(stmt.QueryType)
+	if err != nil {
+		return ""
+	}
+	var gq *goDB.Query
+	if p := hx.Catch(func() {
+		cond, _, perr := node.ParseAndInstrument(stmt.Condition, stmt.DNSResolution.Timeout)
+		if perr == nil {
+			gq = goDB.NewQuery(attrs, cond, stmt.LabelSelector)
+		}
+	}); p != "" {
+		return p
+	}
+	if gq == nil {
+		return ""
+	}
+	ch := make(chan hashmap.AggFlowMapWithMetadata, 64)
+	return hx.Catch(func() { w.mgr.GetFlowMaps(context.Background(), goDB.QueryFilter(gq), ch, ifs...) })
+}
+
 // runQuery runs q through the real engine (live or not) and returns the rows grouped by key plus
 // the number of rows that shared their key with an earlier row.
 func (w *world) runQuery(q *qry, live bool) (rows rowMap, dups int, err error) {
@@ -658,6 +692,14 @@ func execute(u *universe, beh []step, withLive bool, st *runStats, corruptStep i
 			}
 			q := s.Act.Q
 			st.liveQueries++
+			if p := w.preflight(q); p != "" {
+				if len(p) > 1500 {
+					p = p[:1500]
+				}
+				fails = append(fails, failure{i, fmt.Sprintf("live query %q [%s] on %v: filtering the in-memory flows panics: %s", render(q.Cond), q.attrString(), q.Ifs, p),
+					map[string]any{"cls": "live-query-panics", "attrs": q.attrClass(), "cond": condKind(q.Cond)}})
+				break
+			}
 			total, dups, lerr := w.runQuery(q, true)
 			stored, _, serr := w.runQuery(q, false)
 			desc := map[string]any{"attrs": q.attrClass(), "cond": condKind(q.Cond)}
